@@ -410,6 +410,15 @@ func specGateOK(e int, status uint8, mbr, gbr uint64) bool {
 //@   ensures C09.burst.atleast: mulGE(r, 8, kbps, ms, 1) || r == 1<<64-1
 //@   ensures C09.burst.least: r != 0 ==> !mulGE(r-1, 8, kbps, ms, 1)
 
+// UP4 meter configuration of a QER (C09): peak rate exactly MBR x 125 bytes/s, peak burst at least
+// MBR x 10 ms, committed part unused. Callers keep inlining the body (`inline`).
+//@ func getMeterConfigurationFromQER(mbr uint64, gbr uint64) (r *p4.MeterConfig)
+//@   inline
+//@   ensures C09.up4.meter.fresh: r != nil && !allocated(r)
+//@   ensures C09.up4.meter.pir: mbr < 1<<40 ==> r.Pir >= 0 && uint64(r.Pir) == mbr*125
+//@   ensures C09.up4.meter.pburst: mbr < 1<<40 ==> r.Pburst >= 0 && mulGE(uint64(r.Pburst), 8, mbr, 10, 1)
+//@   ensures C09.up4.meter.committed: r.Cir == 0 && r.Cburst == 0
+
 //@ func (b *bess) addQER#1() free(b *bess, qer qer)
 //@   lemmas bvarith
 //@   requires b != nil && b.client != nil && b.qciQosMap != nil && has(b.qciQosMap, 0)
